@@ -129,7 +129,7 @@ PROPS = {
     "C03": {
         "module": "Sfv.Props.C03",
         "tables": ["tables_prim_widths"],
-        "suites": [xver(6, 40), codec(4, 20, tag="ignore"), codec(3, 15, filt="Ver"), codec(3, 15, filt="Rem"), codec(3, 15, filt="As")],
+        "suites": [xver(6, 40), codec(4, 20, tag="ignore"), codec(3, 15, filt="Ver"), codec(3, 15, filt="Rem"), codec(3, 15, filt="As"), extras(2, 8)],
         "oracle": ["C03"],
     },
     "C18": {
@@ -143,6 +143,7 @@ PROPS = {
         "tables": [],
         "suites": [abivals(40, 300), abicall(4, 20), plugin(3, 12)],
         "oracle": ["C09"],
+        "extra": ["miri_abi"],
     },
     "C16": {
         "module": "Sfv.Props.C16",
@@ -152,7 +153,7 @@ PROPS = {
     },
     "C11": {
         "module": "Sfv.Props.C11",
-        "tables": [],
+        "tables": ["tables_schema_arms"],
         "suites": [smem(4, 20), schemas(3, 12), abiconn(1500, 6000), abicall(4, 20), plugin(2, 8)],
         "oracle": ["C11"],
         "extra": ["rlplugins"],
@@ -165,7 +166,7 @@ PROPS = {
     },
     "C15": {
         "module": "Sfv.Props.C15",
-        "tables": [],
+        "tables": ["tables_schema_arms"],
         "suites": [ledger(600, 3000)],
         "oracle": ["C15"],
     },
@@ -195,7 +196,7 @@ PROPS = {
     },
     "C05": {
         "module": "Sfv.Props.C05",
-        "tables": ["tables_header", "tables_schema_tags"],
+        "tables": ["tables_header", "tables_schema_tags", "tables_schema_arms"],
         "suites": [xtype(6, 40), schemas(3, 12), files(1, 4), xver(3, 12)],
         "oracle": ["C05"],
     },
@@ -207,15 +208,16 @@ PROPS = {
     },
     "C13": {
         "module": "Sfv.Props.C13",
-        "tables": ["tables_schema_tags", "tables_header"],
+        "tables": ["tables_schema_tags", "tables_header", "tables_schema_arms"],
         "suites": [schemas(4, 20)],
         "oracle": ["C13"],
     },
     "C06": {
         "module": "Sfv.Props.C06",
         "tables": ["tables_limits", "tables_prim_packed"],
-        "suites": [malformed(6, 30), PACKED, schemas(2, 10), extras(3, 16)],
+        "suites": [malformed(6, 30), PACKED, schemas(2, 10), extras(3, 16), dict(xtype(2, 10), direct_only=True)],
         "oracle": ["C06"],
+        "extra": ["miri_codec"],
     },
     "C07": {
         "module": "Sfv.Props.C07",
